@@ -4,12 +4,12 @@
    (Ok Lt / Ok Eq / Ok Gt = Go's -1 / 0 / +1, Err = returned error, Panic = Go panic);
    [oppO] negates a result and leaves Err / Panic as they are; [leO r] is "r is Ok and <= 0". *)
 From Coq Require Import List ZArith NArith Bool String.
-From Scalibr Require Import Semantic.Cmp Semantic.LexPad Semantic.Bytes Semantic.Str.
+From Scalibr Require Import Semantic.Cmp Semantic.LexPad Semantic.Bytes Semantic.Str Semantic.Generated_Tables.
 From Scalibr Require Import Semantic.Semver Semantic.SemverProofs Semantic.Nuget Semantic.NugetProofs.
 From Scalibr Require Import Semantic.Cran Semantic.CranProofs Semantic.Rubygems Semantic.RubygemsProofs.
 From Scalibr Require Import Semantic.Debian Semantic.DebianProofs Semantic.Redhat Semantic.RedhatProofs.
-From Scalibr Require Import Semantic.Pypi Semantic.PypiProofs Semantic.Packagist Semantic.PackagistProofs.
-From Scalibr Require Import Semantic.Alpine Semantic.AlpineProofs Semantic.Maven Semantic.MavenProofs.
+From Scalibr Require Import Semantic.Pypi Semantic.PypiProofs Semantic.PypiParse Semantic.PypiParseProofs Semantic.Packagist Semantic.PackagistProofs.
+From Scalibr Require Import Semantic.Alpine Semantic.AlpineProofs Semantic.Maven Semantic.MavenProofs Semantic.MavenParseProofs.
 Import ListNotations.
 Open Scope string_scope.
 
@@ -294,6 +294,13 @@ Example debian_agrees_canonical :
   /\ compare_str_debian (b "x:1") (b "1") = Err.
 Proof. vm_compute. repeat split; reflexivity. Qed.
 
+(* the generated constants of weighDebianChar give the deb-version(7) character order:
+   '~' < end of string < letters < everything else *)
+Example debian_weight_table :
+  map deb_weight [b "~"; b ""; b "A"; b "Z"; b "a"; b "z"; b "+"; b "-"; b "."; b "0"] =
+  [1; 2; 65; 90; 97; 122; 165; 167; 168; 170]%Z.
+Proof. vm_compute. reflexivity. Qed.
+
 (* ================================================================== Red Hat *)
 Theorem redhat_total : forall a b : bytes, exists c, compare_str_redhat a b = Ok c.
 Proof. exact redhat_total_lemma. Qed.
@@ -344,9 +351,10 @@ Example redhat_agrees_canonical :
   /\ all_equal compare_str_redhat (map b ["1.0.1"; "1_0_1"; "1.0.01"; "0:1.0.1"; "1+0+1"]) = true.
 Proof. vm_compute. repeat split; reflexivity. Qed.
 
-(* ================================================================== PyPI  (structure level)
-   The PEP 440 regex / legacy tokeniser is not modelled; the theorems speak about the comparison
-   of parsed structures, which the harness obtains from the implementation itself. *)
+(* ================================================================== PyPI
+   The front end (ToLower, the PEP 440 regular expression as a backtracking matcher with Go's
+   leftmost-first preference, parseLetterVersion with the generated spelling table, local labels,
+   the legacy tokeniser) is modelled in PypiParse.v and tied to the code by the parse correspondence. *)
 Definition ln0 : letnum := {| ln_letter := []; ln_number := None |}.
 Definition py (rel : list Z) (pre : letnum) (post dev : option Z) (loc : list bytes) : pypi :=
   {| py_epoch := Some 0%Z; py_release := map Some rel; py_pre := pre;
@@ -357,23 +365,52 @@ Definition pre_of (l : string) (n : Z) : letnum := {| ln_letter := b l; ln_numbe
 
 (* never panics on structures the parser can build (epoch / release numbers present, a
    pre-release number comes with its letter) *)
-Theorem pypi_total : forall v w : pypi, valid_pypi v = true -> valid_pypi w = true -> exists c, cmp_pypi v w = Ok c.
+Theorem pypi_struct_total : forall v w : pypi, valid_pypi v = true -> valid_pypi w = true -> exists c, cmp_pypi v w = Ok c.
 Proof. exact cmp_pypi_total_on_valid. Qed.
+Print Assumptions pypi_struct_total.
+
+(* the front end only builds such structures ... *)
+Theorem pypi_parse_valid : forall (s : bytes) (v : pypi), parse_pypi s = Ok v -> valid_pypi v = true.
+Proof. exact parse_pypi_valid. Qed.
+Print Assumptions pypi_parse_valid.
+
+(* ... so Parse + CompareStr never panics, for any two byte strings *)
+Theorem pypi_total : forall a b : bytes, compare_str_pypi a b <> Panic.
+Proof. exact pypi_str_total. Qed.
 Print Assumptions pypi_total.
 
-(* antisymmetry: ALL structures (nil epoch, nil components, empty letters included) *)
-Theorem pypi_antisym : forall v w : pypi, cmp_pypi w v = oppO (cmp_pypi v w).
-Proof. exact cmp_pypi_antisym. Qed.
+Theorem pypi_antisym : forall a b : bytes, compare_str_pypi b a = oppO (compare_str_pypi a b).
+Proof. exact pypi_str_antisym. Qed.
 Print Assumptions pypi_antisym.
 
-(* reflexivity: all structures whose pre-release, if present, has a letter (otherwise letter[0] panics) *)
-Theorem pypi_refl : forall v : pypi, pre_ok v = true -> cmp_pypi v v = Ok Eq.
-Proof. exact cmp_pypi_refl. Qed.
+Theorem pypi_refl : forall a : bytes, compare_str_pypi a a = Ok Eq \/ compare_str_pypi a a = Err.
+Proof. exact pypi_str_refl. Qed.
 Print Assumptions pypi_refl.
 
-Theorem pypi_refl_refuted : exists v : pypi, cmp_pypi v v = Panic.
+Theorem pypi_trans_all_strings : forall a b c : bytes,
+  leO (compare_str_pypi a b) = true -> leO (compare_str_pypi b c) = true -> leO (compare_str_pypi a c) = true.
+Proof. exact pypi_str_trans. Qed.
+Print Assumptions pypi_trans_all_strings.
+
+Theorem pypi_eq_equiv_all_strings : forall a b c : bytes,
+  compare_str_pypi a b = Ok Eq -> compare_str_pypi a c = compare_str_pypi b c.
+Proof. exact pypi_str_eq_equiv. Qed.
+Print Assumptions pypi_eq_equiv_all_strings.
+
+(* antisymmetry: ALL structures (nil epoch, nil components, empty letters included) *)
+Theorem pypi_struct_antisym : forall v w : pypi, cmp_pypi w v = oppO (cmp_pypi v w).
+Proof. exact cmp_pypi_antisym. Qed.
+Print Assumptions pypi_struct_antisym.
+
+(* reflexivity: all structures whose pre-release, if present, has a letter (otherwise letter[0] panics) *)
+Theorem pypi_struct_refl : forall v : pypi, pre_ok v = true -> cmp_pypi v v = Ok Eq.
+Proof. exact cmp_pypi_refl. Qed.
+Print Assumptions pypi_struct_refl.
+
+(* (a structure the front end never builds) *)
+Theorem pypi_struct_refl_refuted : exists v : pypi, cmp_pypi v v = Panic.
 Proof. exists (py [1%Z] {| ln_letter := []; ln_number := Some 1%Z |} None None []). vm_compute. reflexivity. Qed.
-Print Assumptions pypi_refl_refuted.
+Print Assumptions pypi_struct_refl_refuted.
 
 Theorem pypi_trans_on_valid : forall u v w : pypi,
   valid_pypi u = true -> valid_pypi v = true -> valid_pypi w = true ->
@@ -418,8 +455,26 @@ Fixpoint ascending_s {V} (c : V -> V -> outcome comparison) (l : list V) : bool 
   end.
 
 Example pypi_agrees_canonical :
-  ascending_s cmp_pypi pypi_chain = true /\ forallb valid_pypi pypi_chain = true.
-Proof. vm_compute. split; reflexivity. Qed.
+  ascending_s cmp_pypi pypi_chain = true /\ forallb valid_pypi pypi_chain = true
+  (* the same chain, and PEP 440's normalisation examples, through the modelled parser *)
+  /\ ascending compare_str_pypi
+       (map b ["1.dev0"; "1.0.dev456"; "1.0a1"; "1.0a2.dev456"; "1.0a12.dev456"; "1.0a12"; "1.0b1.dev456"; "1.0b2"; "1.0b2.post345.dev456";
+               "1.0b2.post345"; "1.0rc1.dev456"; "1.0rc1"; "1.0"; "1.0+abc.5"; "1.0+abc.7"; "1.0+5"; "1.0.post456.dev34"; "1.0.post456";
+               "1.0.15"; "1.1.dev1"; "1!0.1"]) = true
+  /\ all_equal compare_str_pypi (map b ["1.0a1"; "1.0alpha1"; "1.0-A1"; " v1.0.a.1 "; "1.0_ALPHA_1"]) = true
+  /\ all_equal compare_str_pypi (map b ["1.0.post1"; "1.0-1"; "1.0post1"; "1.0.r1"; "1.0-REV-1"]) = true
+  /\ all_equal compare_str_pypi (map b ["1.0+ubuntu-1"; "1.0+ubuntu.1"; "1.0+Ubuntu_1"]) = true
+  (* legacy versions sort below every PEP 440 version *)
+  /\ ascending compare_str_pypi (map b ["1.0-foo"; "1.0-foo-1"; "0.0.dev0"]) = true.
+Proof. vm_compute. repeat split; reflexivity. Qed.
+
+(* comparePre only looks at letter[0]: the generated spelling table must send every pre-release
+   spelling to a, b or rc, whose first bytes are ordered a < b < r *)
+Example pypi_letter_table_ordered :
+  map snd gen_pypi_letter_aliases = map b ["a"; "b"; "rc"; "rc"; "rc"; "post"; "post"] /\
+  map fst gen_pypi_letter_aliases = map b ["alpha"; "beta"; "c"; "pre"; "preview"; "rev"; "r"] /\
+  (hd 0%N (b "a") <? hd 0%N (b "b"))%N && (hd 0%N (b "b") <? hd 0%N (b "rc"))%N = true.
+Proof. vm_compute. repeat split; reflexivity. Qed.
 
 (* ================================================================== Packagist  (structure level) *)
 Definition pk (l : list string) : packagist := {| pk_original := []; pk_components := map b l |}.
@@ -467,14 +522,22 @@ Example packagist_agrees_canonical :
   /\ ascending_s cmp_packagist [pk ["1"]; pk ["1"; "5"]; pk ["1"; "99999999999999999999"]] = true.
 Proof. vm_compute. repeat split; reflexivity. Qed.
 
+(* the generated weight table orders the special forms as PHP's version_compare documents:
+   anything else = dev < alpha (a) < beta (b) < RC = rc < # (a number) < pl (p) *)
+Example packagist_table_order :
+  map pk_weight (map b ["dev"; "alpha"; "a"; "beta"; "b"; "RC"; "rc"; "#"; "p"; "pl"; "patch"; "stable"]) =
+  [0; 1; 1; 2; 2; 3; 3; 4; 5; 5; 5; 0]%nat /\ hash_weight = 4%nat.
+Proof. vm_compute. split; reflexivity. Qed.
+
 (* ================================================================== Alpine  (structure level) *)
 Definition anc_of (i : Z) (s : string) : anc :=
   {| an_original := b s; an_value := Some (Z.of_N (digits_val (b s) 0)); an_index := i |}.
 Fixpoint ancs (i : Z) (l : list string) : list anc :=
   match l with [] => [] | s :: r => anc_of i s :: ancs (i + 1) r end.
-Definition alp (comps : list string) (letter : string) (sufs : list (Z * Z)) (build : Z) : alpine :=
+(* suffixes are given by NAME; their weight is looked up in the table generated from weightAlpineSuffixString *)
+Definition alp (comps : list string) (letter : string) (sufs : list (string * Z)) (build : Z) : alpine :=
   {| al_original := []; al_invalid := false; al_remainder := []; al_components := ancs 0 comps;
-     al_letter := b letter; al_suffixes := map (fun p => {| as_weight := fst p; as_number := Some (snd p) |}) sufs;
+     al_letter := b letter; al_suffixes := map (fun p => {| as_weight := suffix_weight (b (fst p)); as_number := Some (snd p) |}) sufs;
      al_hash := []; al_build := Some build |}.
 
 Theorem alpine_total : forall v w : alpine, valid_alpine v = true -> valid_alpine w = true -> exists c, cmp_alpine v w = Ok c.
@@ -519,10 +582,12 @@ Print Assumptions alpine_eq_equiv_on_D.
    alpine-cvs-suffix-equals-none (fix 3b060d98): 1.2 < 1.2_cvs. *)
 Example alpine_agrees_canonical :
   ascending_s cmp_alpine
-    [alp ["1";"2"] "" [(0,1)] 0; alp ["1";"2"] "" [(1,1)] 0; alp ["1";"2"] "" [(2,1)] 0; alp ["1";"2"] "" [(3,1)] 0;
-     alp ["1";"2"] "" [] 0; alp ["1";"2"] "" [] 1; alp ["1";"2"] "" [(5,0)] 0; alp ["1";"2"] "" [(5,1)] 0; alp ["1";"2"] "" [(6,0)] 0;
-     alp ["1";"2"] "" [(9,0)] 0; alp ["1";"2"] "a" [] 0; alp ["1";"2";"1"] "" [] 0; alp ["1";"10"] "" [] 0]%Z = true
-  /\ cmp_alpine (alp ["1";"2"] "" [] 0) (alp ["1";"2"] "" [(5,0)] 0)%Z = Ok Lt
+    [alp ["1";"2"] "" [("alpha",1)] 0; alp ["1";"2"] "" [("beta",1)] 0; alp ["1";"2"] "" [("pre",1)] 0; alp ["1";"2"] "" [("rc",1)] 0;
+     alp ["1";"2"] "" [] 0; alp ["1";"2"] "" [] 1; alp ["1";"2"] "" [("cvs",0)] 0; alp ["1";"2"] "" [("cvs",1)] 0; alp ["1";"2"] "" [("svn",0)] 0;
+     alp ["1";"2"] "" [("git",0)] 0; alp ["1";"2"] "" [("hg",0)] 0; alp ["1";"2"] "" [("p",0)] 0; alp ["1";"2"] "a" [] 0; alp ["1";"2";"1"] "" [] 0; alp ["1";"10"] "" [] 0]%Z = true
+  /\ cmp_alpine (alp ["1";"2"] "" [] 0) (alp ["1";"2"] "" [("cvs",0)] 0)%Z = Ok Lt
+  (* the weight a missing suffix is padded with IS the weight of "no suffix" in the generated table *)
+  /\ gen_alpine_suffix_pad_weight = suffix_weight []
   /\ valid_alpine (alp ["1";"0";"01"] "" [] 0) = true /\ valid_alpine (alp ["1";"00"] "" [] 0) = false.
 Proof. vm_compute. repeat split; reflexivity. Qed.
 
@@ -589,6 +654,32 @@ Theorem maven_eq_equiv_on_D : forall u v w : maven,
 Proof. intros u v w Hu Hv Hw R. exact (proj2 (cmp_maven_laws_on_D u v w Hu Hv Hw R)). Qed.
 Print Assumptions maven_eq_equiv_on_D.
 
+(* the modelled tokeniser (split on '.'/'-', digit/letter transitions, alias rewriting, canonical
+   numbers, trimming of trailing null values) only builds well-formed token lists ... *)
+Theorem maven_parse_wf : forall (s : bytes) (v : maven), parse_maven s = Ok v -> maven_wf v = true.
+Proof. exact parse_maven_wf. Qed.
+Print Assumptions maven_parse_wf.
+
+(* ... hence antisymmetry for ALL byte strings *)
+Theorem maven_antisym : forall a b : bytes, compare_str_maven b a = oppO (compare_str_maven a b).
+Proof. exact maven_str_antisym_lemma. Qed.
+Print Assumptions maven_antisym.
+
+(* and the order laws on D, stated on strings (the domain is evaluated on what the string parses to) *)
+Theorem maven_trans_on_D_strings : forall a b c : bytes,
+  valid_maven_string a = true -> valid_maven_string b = true -> valid_maven_string c = true ->
+  maven_rel_strings a b c = true ->
+  leO (compare_str_maven a b) = true -> leO (compare_str_maven b c) = true -> leO (compare_str_maven a c) = true.
+Proof. intros a b c Ha Hb Hc R. exact (proj1 (maven_str_laws_on_D a b c Ha Hb Hc R)). Qed.
+Print Assumptions maven_trans_on_D_strings.
+
+Theorem maven_eq_equiv_on_D_strings : forall a b c : bytes,
+  valid_maven_string a = true -> valid_maven_string b = true -> valid_maven_string c = true ->
+  maven_rel_strings a b c = true ->
+  compare_str_maven a b = Ok Eq -> compare_str_maven a c = compare_str_maven b c.
+Proof. intros a b c Ha Hb Hc R. exact (proj2 (maven_str_laws_on_D a b c Ha Hb Hc R)). Qed.
+Print Assumptions maven_eq_equiv_on_D_strings.
+
 (* non-vacuity: parsed versions in D whose separators agree, with distinct results; the two
    refutation witnesses lie outside D for the stated reasons *)
 Definition pm (s : string) : maven := match parse_maven (b s) with Ok v => v | _ => {| mv_tokens := [] |} end.
@@ -598,6 +689,14 @@ Example maven_D_nonvacuous :
   cmp_maven (pm "1.1-rc-1") (pm "1.2-sp-1") = Ok Lt /\ cmp_maven (pm "1.2-sp-1") (pm "1.2-foo") = Ok Lt /\
   maven_rel (pm "1") (pm "1.a") (pm "1-rc") = false /\ valid_maven (pm "1.a") = false /\ valid_maven (pm "1.sp") = false /\
   maven_wf (pm "1.a") = true /\ maven_wf (pm "1.sp") = true /\ maven_wf (pm "1.0.rc") = true.
+Proof. vm_compute. repeat split; reflexivity. Qed.
+
+(* the generated Maven tables are what the lemmas above were proved about *)
+Example maven_tables :
+  gen_maven_keyword_order = map b ["alpha"; "beta"; "milestone"; "rc"; "snapshot"; ""; "sp"] /\
+  gen_maven_aliases = [(b "", b "0"); (b "cr", b "rc"); (b "ga", b ""); (b "final", b ""); (b "release", b "")] /\
+  gen_maven_aliases_before_digit = [(b "a", b "alpha"); (b "b", b "beta"); (b "m", b "milestone")] /\
+  gen_maven_should_trim = map b ["0"; ""; "final"; "ga"].
 Proof. vm_compute. repeat split; reflexivity. Qed.
 
 (* labelled TEST: Maven POM reference, "Version Order Specification" *)
